@@ -189,7 +189,10 @@ fn gen(rng: &mut Rng, tier: &str) -> Vec<(String, Value)> {
     // (a) exhaustive small scope: the empty input and every one-byte input for every kind with a tag or version
     //     octet; every byte value inside a URI (pins the character class of the URI check)
     for kind in KINDS { cases.push(case("exhaustive.empty", kind, &[])); }
-    for kind in ["u8", "opt_i64", "header", "status", "stored_status", "state", "object"] {
+    let first_kinds: &[&str] = if thorough { &["u8", "opt_i64", "header", "status", "stored_status", "state", "object"] }
+                               else { &["opt_i64", "header", "status", "stored_status", "state"] };
+    for kind in first_kinds {
+        let kind = *kind;
         for b in 0..=255u8 {
             let mut d = vec![b];
             if kind != "u8" && kind != "object" { d.extend_from_slice(&1700000000i64.to_be_bytes()); }
@@ -212,7 +215,7 @@ fn gen(rng: &mut Rng, tier: &str) -> Vec<(String, Value)> {
         let prefixes: Vec<Vec<u8>> = if width == 4 { PREFIX32.iter().map(|x| x.to_be_bytes().to_vec()).collect() }
                                      else { PREFIX64.iter().map(|x| x.to_be_bytes().to_vec()).collect() };
         for p in prefixes {
-            for tail in [0usize, 1, 40, 200] {
+            for tail in (if thorough { vec![0usize, 1, 40, 200] } else { vec![0usize, 40] }) {
                 let mut d = pre.clone(); d.extend_from_slice(&p);
                 d.extend(b"https://h/rsync://h/m/x".iter().cycle().take(tail));
                 cases.push(case(&format!("boundary.prefix.{}", site), kind, &d));
@@ -270,8 +273,8 @@ fn gen(rng: &mut Rng, tier: &str) -> Vec<(String, Value)> {
             for pos in 0..enc.len() {
                 if !(full || pos < 48 || r.chance(1, 12)) { continue }
                 let orig = enc[pos];
-                let mut alts = vec![orig ^ 1, orig ^ 0x80, 0x00, 0xFF, r.next() as u8];
-                if !full { alts.truncate(2); }
+                let mut alts = vec![orig ^ 1, 0xFF, orig ^ 0x80, 0x00, r.next() as u8];
+                if !full || !thorough { alts.truncate(2); }
                 alts.sort(); alts.dedup();
                 for a in alts {
                     if a == orig { continue }
@@ -279,7 +282,7 @@ fn gen(rng: &mut Rng, tier: &str) -> Vec<(String, Value)> {
                     cases.push(case("corruption.byte", kind, &d));
                 }
             }
-            for _ in 0..(if thorough { 40 } else { 12 }) {
+            for _ in 0..(if thorough { 40 } else { 8 }) {
                 if enc.is_empty() { break }
                 let mut d = enc.clone();
                 let pos = r.below(d.len() as u64) as usize;
@@ -289,7 +292,7 @@ fn gen(rng: &mut Rng, tier: &str) -> Vec<(String, Value)> {
         }
     }
     // (d) malformed stream: random bytes, and a valid beginning followed by random bytes
-    let n = if thorough { 200 } else { 30 };
+    let n = if thorough { 200 } else { 20 };
     for kind in KINDS {
         for i in 0..n {
             let mut r = rng.fork();
@@ -350,7 +353,7 @@ mod files {
         for pos in 0..enc.len() { for a in [enc[pos] ^ 1, enc[pos] ^ 0x80, 0xFF] { let mut d = enc.clone(); d[pos] = a; cases.push(case("file.corruption", "file_status", &d)); } }
         for _ in 0..20 { let n = rng.below(20) as usize; cases.push(case("file.random", "file_status", &gen_bytes(rng, n))); }
         // stored publication points: header, manifest, objects
-        let rounds = if thorough { 8 } else { 3 };
+        let rounds = if thorough { 8 } else { 2 };
         for round in 0..rounds {
             let mut r = rng.fork();
             let mut file = encode_impl("header", &json!({
@@ -369,7 +372,7 @@ mod files {
             }
             for pos in 0..file.len() {
                 if !(pos < hdr_len + 40 || (pos + 8 >= mft_end && pos < mft_end + 24) || r.chance(1, 6)) { continue }
-                for a in [file[pos] ^ 1, 0xFF, 0x00] {
+                for a in (if thorough { vec![file[pos] ^ 1, 0xFF, 0x00] } else { vec![file[pos] ^ 1, 0xFF] }) {
                     if a == file[pos] { continue }
                     let mut d = file.clone(); d[pos] = a;
                     cases.push(case("file.corruption", "file_point", &d));
